@@ -100,9 +100,11 @@ def ensure_facts(repo=REPO, target=None, verbose=True):
                 raise MachineryError("no fact file written for crate %s (%s); found %r" % (c, kind, found))
         with open(os.path.join(fdir, "OK"), "w") as fh:
             fh.write("%s extracted in %.1fs\n" % (th, time.time() - t0))
-        # prune old fact dirs (keep 6 newest)
-        dirs = sorted(glob.glob(os.path.join(CACHE, "facts", "*")), key=os.path.getmtime)
-        for d in dirs[:-14]:
+        # prune old fact dirs: keep the 4 newest of /repo itself (no tag) and the 12 newest of scratch copies
+        alld = sorted(glob.glob(os.path.join(CACHE, "facts", "*")), key=os.path.getmtime)
+        own = [d for d in alld if "-" not in os.path.basename(d)]
+        alt = [d for d in alld if "-" in os.path.basename(d)]
+        for d in own[:-4] + alt[:-12]:
             if d != fdir:
                 subprocess.run(["rm", "-rf", d])
         if verbose:
